@@ -96,15 +96,27 @@ def programs(rnd, n):
     poison = ["p(X, foo/2).\n", "p(X) :- q(Y, %s).\n" % ("9" * 5000), "cat(tom) :- 1.\n", "a(X) :- b(X),, c(X).\n", "'two words'(X) :- q(X).\n",
               "deep(X) :- %s.\n" % ", ".join("g(X%d)" % i for i in range(25)), "t(X) :- X = %s.\n" % ("s(" * 150 + "z" + ")" * 150),
               "k(X,Y) :- (a(X,A1) -> b(A1,B1) ; c(Y,C1)), foo/3.\n", "m(X) :- q(X, [A,B|T]), r(T, bar/1, Z).\n"]
-    k = max(1, (n - len(fixed)) // (len(poison) + 1))
+    # the same failures after the rejected text has already used every numbered resource of a compilation (anonymous
+    # variables, if-then-else labels, loop variables, nesting), and canaries that use them all compiled right before and
+    # right after each rejected text (in the forward and in the reverse history): a counter that is only reset when a
+    # compilation completes shows in the canary
+    prefix = "pz(_, X) :- ( a(X, _) -> b(_) ; c(X, _) ), \\+ d(_), ( e(_) -> f(_) ; g ).\npz(_, _).\n"
+    poison = poison + [prefix + t.replace("(X", "(_, X", 1) for t in poison]
+    canary = "can%d(_, X) :- ( a(X, _) -> b(_) ; c(X) ), \\+ d(_), ( e(_, Y) -> f(Y, _) ; g ), h([_, _|_]).\ncan%d(_, _).\ncan%d(f(_), [_]) :- x(_), \\+ y(_).\n"
     i = 0
+    j = 0
     while len(out) < n:
-        if (len(out) - len(fixed)) % k == k - 1 and i < len(poison):
+        if i < len(poison) and j % 2 == 1:
+            out.append(canary % (i, i, i))
             out.append(poison[i]); i += 1
+            out.append(canary % (i + 100, i + 100, i + 100))
+            j += 1
             continue
+        j += 1
         s = gen.random_scenario(rnd, {"ctl", "meta", "cut", "db", "dyn"}, nclauses=3, depth=3)
         text = render_script(s["scripts"]["P"], "minimal")
         out.append(text if len(out) % 9 else {"text": text, "mode": ("file", "named")[(len(out) // 9) % 2]})
+    out = out[:n]
     return out
 
 
